@@ -11,7 +11,10 @@ Driver lanes of C10.
 `c10run <variant> <clientOps> <reqOps> <conds> <hooks> <after> <script> <backoffObs>
         <c.cookies> <c.headers> <c.form> <c.query> <c.allowGet>
         <method> <url> <cookies> <headers> <form> <ordered> <query> <multipart> <files> <body>
-        <resend> <ivx>`
+        <resend> <ivx> <rawQuery> <pathParams> <c.pathParams> <c.baseURL> <c.scheme> <setCookies>`
+(`<url>` is a template: `a<origin>|<segs>` absolute, `s<authority>|<segs>` without scheme, `r|<segs>`
+relative; `<segs>` = `l<hex>` literal / `p<hex>` `{placeholder}`, comma separated; `<setCookies>` =
+per script position `-` or the `name:value` pairs (`name:` deletes) the response sets in the jar)
 → the whole trace of `Request.Do` (events, per-attempt wire requests, final result), and of every
 further `Do` on the same `Request` (`resend`: per re-send the setter calls made before it).
 Conditions / response middleware `<pred>[~<edit>]`, hooks `C<k>`, `I<src>`, `X` and the interval
@@ -227,7 +230,10 @@ def decBody (s : String) : Option BodySrc :=
   | "n" => if rest == "" then some .none else none
   | "b" => (decodeHex rest).map .bytes
   | "u" => (decodeHex rest).map .user
-  | "m" => (decodeHex rest).map .marshal
+  | "m" =>
+    match rest.splitOn ":" with
+    | [j, x] => do pure (.marshal (← decodeHex j) (← decodeHex x))
+    | _ => none
   | "r" => (decodeHex rest).map fun b => .reader b false
   | _ => none
 
@@ -270,8 +276,14 @@ def encBody : WBody → String
     "p" ++ encPairs (sortBy (fun e => e.1) fields) ++ "/" ++
       (if files.isEmpty then "-" else ";".intercalate (files.map encFilePart))
 
+/-- Go prints a `map[string][]string`: one entry per key, values in order of appearance. -/
+def groupMulti (m : Multi) : Multi :=
+  m.foldl (fun acc e =>
+    if acc.any (fun a => a.1 == e.1) then acc.map fun a => if a.1 == e.1 then (a.1, a.2 ++ e.2) else a
+    else acc ++ [e]) []
+
 def encWire (w : Wire) : String :=
-  "&".intercalate ["m=" ++ encodeHex w.method, "u=" ++ encodeHex w.url, "q=" ++ encMulti w.query,
+  "&".intercalate ["m=" ++ encodeHex w.method, "u=" ++ encodeHex w.url, "q=" ++ encMulti (groupMulti w.query),
     "h=" ++ encMulti w.headers, "c=" ++ encPairs w.cookies, "b=" ++ encBody w.body]
 
 def encErrKind : ErrKind → String
@@ -284,38 +296,48 @@ def encView : RespView → String
 def encObs (o : Obs) : String :=
   toString o.attempt ++ "/" ++ encView o.resp ++ "/" ++ (match o.err with | some k => encErrKind k | none => "-")
 
-/-- Duration the stub interval function `id` answers for `attempt`. -/
-def stubInterval (id attempt : Nat) : Nat := id * 1000 + attempt
+/-- Duration the stub interval function `id` answers for `attempt`; the stubs numbered 100 and
+up are "Retry-After style": they read the status of the response they are handed. -/
+def stubInterval (id attempt : Nat) (v : RespView) : Nat :=
+  id * 1000 + attempt +
+    (if id ≥ 100 then (match v with | .status c => 7 * c | _ => 0) else 0)
 
-/-- Events → tokens; `obs` is the list of observed durations of the backoff calls, consumed in order. -/
-def encEvents (showWire : Bool) : List (Event Wire) → List Int → List String
-  | [], _ => []
-  | e :: t, obs =>
+/-- Events → tokens; `obs` is the list of observed durations of the backoff calls, consumed in
+order; `pass` counts the loop passes begun so far over all sends (= the script position of the
+pass in progress), `sets` is what each script position's response stores in the cookie jar. -/
+def encEvents (showWire : Bool) (sets : List (List (Bytes × Bytes))) :
+    List (Event Wire) → List Int → Nat → List String × Nat
+  | [], _, pass => ([], pass)
+  | e :: t, obs, pass =>
+    let cont (tok : String) (obs : List Int) (pass : Nat) : List String × Nat :=
+      let r := encEvents showWire sets t obs pass
+      (tok :: r.1, r.2)
     match e with
-    | .before ra => ("B" ++ toString ra) :: encEvents showWire t obs
+    | .before ra => cont ("B" ++ toString ra) obs (pass + 1)
     | .wire ra w =>
-      ("W" ++ toString ra ++ (if showWire then "[" ++ encWire w ++ "]" else "")) :: encEvents showWire t obs
-    | .after i o => ("A" ++ toString i ++ "@" ++ encObs o) :: encEvents showWire t obs
-    | .cond id o r =>
-      ("C" ++ toString id ++ "@" ++ encObs o ++ "=" ++ (if r then "1" else "0")) :: encEvents showWire t obs
-    | .hook id o => ("H" ++ toString id ++ "@" ++ encObs o) :: encEvents showWire t obs
+      -- the pass in progress has index `pass - 1`
+      cont ("W" ++ toString ra ++
+        (if showWire then "[" ++ encWire (withJar w (jarBefore sets [] (pass - 1))) ++ "]" else "")) obs pass
+    | .after i o => cont ("A" ++ toString i ++ "@" ++ encObs o) obs pass
+    | .cond id o r => cont ("C" ++ toString id ++ "@" ++ encObs o ++ "=" ++ (if r then "1" else "0")) obs pass
+    | .hook id o => cont ("H" ++ toString id ++ "@" ++ encObs o) obs pass
     | .interval src a v =>
       -- every interval call was observed by the harness; the observation must be what the
       -- installed function answers (exactly, or — for the randomised backoff — within its bounds)
       let pre := "I" ++ toString a ++ "@" ++ encView v ++ "="
       match obs with
-      | [] => (pre ++ "missing-observation") :: encEvents showWire t []
+      | [] => cont (pre ++ "missing-observation") [] pass
       | d :: obs' =>
         let tok := match src with
           | .dflt => toString (100000000 : Nat)
-          | .fn id => toString (stubInterval id a)
+          | .fn id => toString (stubInterval id a v)
           | .fixed n => toString n
           | .backoff mn mx =>
             let h := Req.Backoff.half mn mx a
             -- the repaired function answers 0 when there is nothing to randomise
             let ok := if h ≤ 0 then d == 0 else decide (h ≤ d) && decide (d < 2 * h)
             if ok then toString d else "out-of-bounds:" ++ toString h
-        (pre ++ tok) :: encEvents showWire t obs'
+        cont (pre ++ tok) obs' pass
 
 def encFinal (f : Final) : String :=
   match f with
@@ -337,7 +359,13 @@ def encFinal (f : Final) : String :=
 
 def textPlain : Bytes := ofStr "text/plain; charset=utf-8"
 
-def mkCfg (cookies : List (Bytes × Bytes)) (headers form query : Multi) (allowGet : Bool) : ClientCfg :=
+def isXMLType (ct : Bytes) : Bool :=
+  -- `util.IsXMLType` on the harness's alphabet of content types
+  let s := String.ofList (ct.map fun b => Char.ofNat b.toNat)
+  (s.splitOn "xml").length > 1
+
+def mkCfg (cookies : List (Bytes × Bytes)) (headers form query : Multi) (allowGet : Bool)
+    (pathParams : List (Bytes × Bytes)) (baseURL scheme : Bytes) : ClientCfg :=
   { cookies, headers, form, query, allowGetPayload := allowGet,
     -- `http.DetectContentType` on the harness's alphabet (printable text; NUL only as padding)
     detect := fun b => if b.any (· == 0) then ofStr "application/octet-stream" else textPlain,
@@ -345,7 +373,28 @@ def mkCfg (cookies : List (Bytes × Bytes)) (headers form query : Multi) (allowG
     formCT := ofStr "application/x-www-form-urlencoded",
     jsonCT := ofStr "application/json; charset=utf-8",
     ctKey := ofStr "Content-Type",
-    mGet := ofStr "GET", mHead := ofStr "HEAD", mOptions := ofStr "OPTIONS" }
+    mGet := ofStr "GET", mHead := ofStr "HEAD", mOptions := ofStr "OPTIONS",
+    isXML := isXMLType, pathParams, baseURL,
+    schemePrefix := if scheme.isEmpty then [] else scheme ++ ofStr "://" }
+
+def decSeg (s : String) : Option Seg :=
+  let rest := dropS s 1
+  match takeS s 1 with
+  | "l" => (decodeHex rest).map .lit
+  | "p" => (decodeHex rest).map .param
+  | _ => none
+
+def decUrlT (s : String) : Option (UrlHead × List Seg) :=
+  match s.splitOn "|" with
+  | [h, segs] => do
+    let segs ← (splitList "," segs).mapM decSeg
+    let rest := dropS h 1
+    match takeS h 1 with
+    | "a" => pure (.abs (← decodeHex rest), segs)
+    | "s" => pure (.noScheme (← decodeHex rest), segs)
+    | "r" => if rest == "" then pure (.rel, segs) else none
+    | _ => none
+  | _ => none
 
 def mkPolicy (ro : Option RetryOption) (conds : List PredStub) (hooks : List HookStub) (after : List PredStub) :
     Option (Policy ReqState) :=
@@ -379,15 +428,21 @@ def countIntervals : List (Event Wire) → Nat
   | .interval _ _ _ :: t => countIntervals t + 1
   | _ :: t => countIntervals t
 
-def encSends (showWire : Bool) : List (List (Event Wire) × Final) → List Int → List String
-  | [], _ => []
-  | (ev, fin) :: more, obs =>
-    encEvents showWire ev obs ++ [encFinal fin] ++ encSends showWire more (obs.drop (countIntervals ev))
+def encSends (showWire : Bool) (sets : List (List (Bytes × Bytes))) :
+    List (List (Event Wire) × Final) → List Int → Nat → List String
+  | [], _, _ => []
+  | (ev, fin) :: more, obs, pass =>
+    let r := encEvents showWire sets ev obs pass
+    r.1 ++ [encFinal fin] ++ encSends showWire sets more (obs.drop (countIntervals ev)) r.2
+
+def decSets (s : String) : Option (List (List (Bytes × Bytes))) :=
+  (splitList "," s).mapM fun t => if t == "-" then some [] else (t.splitOn "+").mapM decPair
 
 def laneRun (showWire : Bool) : List String → String
   | [v, cops, rops, conds, hooks, after, script, bobs,
      cck, chd, cfm, cq, cag,
-     method, url, ck, hd, fm, ord, q, mp, files, body, resend, ivx] =>
+     method, url, ck, hd, fm, ord, q, mp, files, body, resend, ivx,
+     rawq, pp, cpp, cbase, cscheme, sets] =>
     let r : Option String := do
       let v ← decVariant v
       let ro := effective (← decSetters cops) (← decSetters rops)
@@ -401,10 +456,14 @@ def laneRun (showWire : Bool) : List String → String
       let resend ← decResend resend
       let bobs ← (splitList "," bobs).mapM String.toInt?
       let cfg := mkCfg (← decPairs cck) (← decMulti chd) (← decMulti cfm) (← decMulti cq) (← decBool cag)
-      let st : ReqState := ⟨← decodeHex method, ← decodeHex url, ← decPairs ck, ← decMulti hd, ← decMulti fm,
+        (← decPairs cpp) (← decodeHex cbase) (← decodeHex cscheme)
+      let ut ← decUrlT url
+      let st : ReqState := ⟨← decodeHex method, ut.1, ut.2, ← decPairs rawq, ← decPairs pp,
+        ← decPairs ck, ← decMulti hd, ← decMulti fm,
         ← decPairs ord, ← decMulti q, ← decBool mp, ← decFiles files, ← decBody body⟩
+      let sets ← decSets sets
       let sends := dsends v p ed (mw v cfg) (unreplayable v) resend script 0 st (dynOf p)
-      pure (" ".intercalate (encSends showWire sends bobs))
+      pure (" ".intercalate (encSends showWire sets sends bobs 0))
     r.getD "bad-op"
   | _ => "bad-op"
 
